@@ -1193,6 +1193,7 @@ func (r *runningStep) deployStage() (deployer.Plugin, bool, error) {
 		verifhook.Emit("SSlot", "obj", r, "slot", "deploy", "op", "miss")
 		verifhook.Emit("SSet", "obj", r, "stage", string(r.currentStage), "state", string(r.state))
 		r.lock.Unlock()
+		verifhook.Gate("plugin.deploy.afterMiss", "obj", r)
 		select {
 		case deployerConfig = <-r.deployInput:
 			r.lock.Lock()
